@@ -6,14 +6,16 @@ import (
 	"go/ast"
 	"go/token"
 	"go/types"
+	"regexp"
 	"strings"
 )
 
 func init() { register("C06", "other", checkC06) }
 
 func checkC06(w *World, r *Result) {
-	r.Explanation = "Decides structural necessary conditions on generator/dart: CONS both struct loops (class declaration and JSON routines) are json consumers; AGR-C06a the two loops have the same leading filter and derive the Dart field identifier the same way, so constructor parameters and fromJson arguments align; AGR-C02b union dispatch uses the members' local Go names on both the decoding and the encoding side; REC-SHAPE/EXH-b typeName and jsonID never follow a child buffer.generate skips and accept the same kinds; AGR-C06p every jsonFor* helper is only called from the code* function of the same node; FLW-C06b the file name returned by every buffer.generate(child) call inside a code* function flows into the imports that function returns, and the import emission skips exactly the file itself; AGR-C06c buffer.generate returns, on every path, the file computed for the node itself (Linker.GetOutput of its own type, the parent's only for anonymous maps and arrays), and Linker.GetOutput/OutputFiles read the same table; AGR-C10b/PTH-C10a/AGR-C10s the iota flag that licenses the positional conversion is decided on exactly the exported constants, after the integer, non-negative, gap and duplicate tests and the sort by value (rules shared with C10); AGR-C06i enum tables list exactly the exported constants and `implements` lists exactly the exported unions of Implements; AGR-C06e the index-based enum mapping is used exactly when IsIota; DECL-ID declaration IDs cover what their content reads; GEN-ID every name derived from a go/types Named also covers its type arguments, so two instantiations of one generic type are two classes; TPL-4 bracket balance of the constant templates. Does not decide: Dart syntax beyond balance, identity of member<->value conversion as a value-level fact."
-	r.Rules = []string{"CONS", "FLW-C09a", "AGR-C09b", "AGR-C06a", "AGR-C02b", "REC-SHAPE", "EXH-b", "AGR-C06p", "FLW-C06b", "AGR-C06j", "AGR-C06c", "AGR-C06r", "AGR-C10b", "PTH-C10a", "AGR-C10s", "SORT-PAR", "AGR-C06i", "AGR-C11i", "AGR-C06e", "DECL-ID", "GEN-ID", "CONST-EXACT", "UTF8-SLICE", "TPL-4", "ALIAS-APPEND", "PRINTF", "CACHE-DROP", "MUT-AN", "AGR-C09c", "POS-ORDER"}
+	r.Explanation = "Decides structural necessary conditions on generator/dart: CONS both struct loops (class declaration and JSON routines) are json consumers; AGR-C06a the two loops have the same leading filter and derive the Dart field identifier the same way, so constructor parameters and fromJson arguments align; AGR-C02b union dispatch uses the members' local Go names on both the decoding and the encoding side; REC-SHAPE/EXH-b typeName and jsonID never follow a child buffer.generate skips and accept the same kinds; AGR-C06p every jsonFor* helper is only called from the code* function of the same node; FLW-C06b the file name returned by every buffer.generate(child) call inside a code* function flows into the imports that function returns, and the import emission skips exactly the file itself; AGR-C06c buffer.generate returns, on every path, the file computed for the node itself (Linker.GetOutput of its own type, the parent's only for anonymous maps and arrays), and Linker.GetOutput/OutputFiles read the same table; AGR-C10b/PTH-C10a/AGR-C10s the iota flag that licenses the positional conversion is decided on exactly the exported constants, after the integer, non-negative, gap and duplicate tests and the sort by value (rules shared with C10); AGR-C06i enum tables list exactly the exported constants and `implements` lists exactly the exported unions of Implements; AGR-C06e the index-based enum mapping is used exactly when IsIota; DECL-ID declaration IDs cover what their content reads; GEN-ID every name derived from a go/types Named also covers its type arguments, so two instantiations of one generic type are two classes; TPL-4 bracket balance of the constant templates; AGR-C06q buffer.generate leaves before the emission only under the named-type memo (or a per-file memo), so the list/dict helpers of an anonymous container are written into every file that reaches it. Does not decide: Dart syntax beyond balance, identity of member<->value conversion as a value-level fact."
+	r.Rules = []string{"CONS", "FLW-C09a", "AGR-C09b", "AGR-C06a", "AGR-C02b", "REC-SHAPE", "EXH-b", "AGR-C06p", "FLW-C06b", "AGR-C06j", "AGR-C06c", "AGR-C06r", "AGR-C10b", "PTH-C10a", "AGR-C10s", "SORT-PAR", "AGR-C06i", "AGR-C11i", "AGR-C06e", "DECL-ID", "GEN-ID", "CONST-EXACT", "UTF8-SLICE", "TPL-4", "ALIAS-APPEND", "PRINTF", "CACHE-DROP", "MUT-AN", "AGR-C09c", "POS-ORDER", "AGR-C06q"}
+	checkDartNoForeignSkip(w, r)
 	posOrderRule(w, r, func(rel string) bool { return rel == "analysis" || rel == "generator/dart" })
 	mutAnRule(w, r, func(rel string) bool { return rel == "generator/dart" })
 	// which embedded fields are flattened decides the keys this generator reads and writes (rule shared with C09)
@@ -244,6 +246,7 @@ func checkDartImports(w *World, r *Result) {
 			n++
 			// the call must be the RHS of an assignment to a variable that is returned, or appended to a returned slice
 			flows := false
+			overwritten := ""
 			var holder types.Object
 			ast.Inspect(fi.Decl.Body, func(y ast.Node) bool {
 				if as, ok := y.(*ast.AssignStmt); ok {
@@ -259,6 +262,30 @@ func checkDartImports(w *World, r *Result) {
 			})
 			if holder != nil && returned[holder] {
 				flows = true
+				// ... and nothing else is ever stored into the holder: an overwrite on some path drops the file
+				ast.Inspect(fi.Decl.Body, func(y ast.Node) bool {
+					as, ok := y.(*ast.AssignStmt)
+					if !ok {
+						return true
+					}
+					for i, l := range as.Lhs {
+						id := identOf(l)
+						if id == nil || objOf(info, id) != holder {
+							continue
+						}
+						var rhs ast.Expr
+						if len(as.Rhs) == len(as.Lhs) {
+							rhs = ast.Unparen(as.Rhs[i])
+						} else if len(as.Rhs) == 1 {
+							rhs = ast.Unparen(as.Rhs[0])
+						}
+						if c2, ok := rhs.(*ast.CallExpr); ok && calleeOf(info, c2) == gen.Obj {
+							continue
+						}
+						overwritten = w.Pos(as.Pos()) + ": " + es(l) + " = " + es(rhs)
+					}
+					return true
+				})
 			}
 			// appended to (or stored at the loop index of a pre-sized) returned slice, directly or through the holder
 			ast.Inspect(fi.Decl.Body, func(y ast.Node) bool {
@@ -303,6 +330,9 @@ func checkDartImports(w *World, r *Result) {
 						}
 					}
 				}
+			}
+			if overwritten != "" {
+				r.bad("FLW-C06b", fi.Name, "file of "+argsStr(call)+" is not overwritten before it is returned", w.Pos(call.Pos()), "the variable holding the file in which the child was emitted is assigned another value on some path ("+overwritten+"): on that path the import is lost while the generated code still calls the child's class or JSON helpers")
 			}
 			r.cond(flows, "FLW-C06b", fi.Name, "file of "+argsStr(call)+" reaches the returned imports", w.Pos(call.Pos()), "the file name returned by buffer.generate for the child is returned to the caller, which records it as an import", "the file in which the child type was emitted is dropped: the generated file uses a class or helper of another file without importing it")
 			return true
@@ -759,5 +789,125 @@ func checkDartHelperFile(w *World, r *Result) {
 	}
 	if n == 0 {
 		Undecided("AGR-C06j: no code* function of generator/dart records imports for its children")
+	}
+}
+
+// checkDartNoForeignSkip (AGR-C06q): the helpers of an anonymous list/map are written into the file of the parent that
+// uses them, so one node is emitted once per file that reaches it. The only sound way to leave generate before the
+// emission is the named-type memo (generator.Cache.Check of the node, which ignores anonymous nodes) or a memo whose
+// key carries the output file. Any other early return drops the helpers of the second file that reaches the node.
+func checkDartNoForeignSkip(w *World, r *Result) {
+	gen := w.MustFunc("generator/dart.(buffer).generate")
+	info := gen.Pkg.TypesInfo
+	sig := gen.Obj.Type().(*types.Signature)
+	if sig.Params().Len() < 1 {
+		Undecided("dart.generate has no node parameter")
+	}
+	param := sig.Params().At(0)
+	fileNames := map[string]bool{}
+	for i := 1; i < sig.Params().Len(); i++ {
+		fileNames[sig.Params().At(i).Name()] = true
+	}
+	ast.Inspect(gen.Decl.Body, func(x ast.Node) bool {
+		if as, ok := x.(*ast.AssignStmt); ok {
+			for _, l := range as.Lhs {
+				if id := identOf(l); id != nil {
+					if t := info.TypeOf(id); t != nil && t.String() == "string" {
+						fileNames[id.Name] = true
+					}
+				}
+			}
+		}
+		return true
+	})
+	isAdd := func(n ast.Node) bool {
+		found := false
+		ast.Inspect(n, func(y ast.Node) bool {
+			if call, ok := y.(*ast.CallExpr); ok {
+				if fn := calleeOf(info, call); fn != nil && fn.Pkg() == gen.Obj.Pkg() {
+					if s, ok := fn.Type().(*types.Signature); ok && s.Recv() != nil && strings.Contains(s.Recv().Type().String(), "outFile") {
+						found = true
+					}
+				}
+			}
+			return true
+		})
+		return found
+	}
+	n := 0
+	var walk func(list []ast.Stmt, emitted bool, guards []ast.Expr, top bool)
+	walk = func(list []ast.Stmt, emitted bool, guards []ast.Expr, top bool) {
+		for i, st := range list {
+			switch s := st.(type) {
+			case *ast.ReturnStmt:
+				if top && i == len(list)-1 {
+					continue // the final return, after the emission switch
+				}
+				n++
+				cons := "early return of generate"
+				if emitted {
+					r.ok("AGR-C06q", gen.Name, cons+" after the emission", w.Pos(s.Pos()), "an add into the output file precedes this return", true)
+					continue
+				}
+				okGuard, how := false, ""
+				for _, g := range guards {
+					ast.Inspect(g, func(y ast.Node) bool {
+						if call, ok := y.(*ast.CallExpr); ok && fullName(calleeOf(info, call)) == "("+modPath+"/generator.Cache).Check" && len(call.Args) == 1 {
+							if id := identOf(call.Args[0]); id != nil && objOf(info, id) == types.Object(param) {
+								okGuard, how = true, "guarded by the named-type memo Cache.Check("+param.Name()+"), which never skips an anonymous list or map"
+							}
+						}
+						return true
+					})
+					if !okGuard {
+						txt := es(g)
+						mentionsFile := false
+						for f := range fileNames {
+							if regexp.MustCompile(`\b` + regexp.QuoteMeta(f) + `\b`).MatchString(txt) {
+								mentionsFile = true
+							}
+						}
+						if mentionsFile && regexp.MustCompile(`\b`+regexp.QuoteMeta(param.Name())+`\b`).MatchString(txt) {
+							okGuard, how = true, "guarded by a test that reads both the node and the output file (a per-file memo)"
+						}
+					}
+				}
+				r.cond(okGuard, "AGR-C06q", gen.Name, cons+" before the emission", w.Pos(s.Pos()), how,
+					"generate returns before writing the declaration under a condition other than the named-type memo: an anonymous list or map reached from a second output file is skipped, and that file calls list/dict helpers it neither defines nor imports")
+			case *ast.IfStmt:
+				g2 := append(append([]ast.Expr{}, guards...), s.Cond)
+				walk(s.Body.List, emitted, g2, false)
+				if s.Else != nil {
+					if b, ok := s.Else.(*ast.BlockStmt); ok {
+						walk(b.List, emitted, g2, false)
+					} else {
+						walk([]ast.Stmt{s.Else}, emitted, g2, false)
+					}
+				}
+			case *ast.BlockStmt:
+				walk(s.List, emitted, guards, false)
+			case *ast.SwitchStmt:
+				for _, c := range s.Body.List {
+					walk(c.(*ast.CaseClause).Body, emitted, guards, false)
+				}
+			case *ast.TypeSwitchStmt:
+				for _, c := range s.Body.List {
+					walk(c.(*ast.CaseClause).Body, emitted, guards, false)
+				}
+			case *ast.ForStmt:
+				walk(s.Body.List, emitted, guards, false)
+			case *ast.RangeStmt:
+				walk(s.Body.List, emitted, guards, false)
+			}
+			if isAdd(st) {
+				if _, isIf := st.(*ast.IfStmt); !isIf {
+					emitted = true
+				}
+			}
+		}
+	}
+	walk(gen.Decl.Body.List, false, nil, true)
+	if n == 0 {
+		r.ok("AGR-C06q", gen.Name, "no early return in generate", fnPos(w, gen), "generate has a single exit after the emission switch", true)
 	}
 }
